@@ -654,3 +654,31 @@ package eio
 //@     requires false [C07.srv.forcing.poll.cycles.never.swaps]
 //@   callsite (*serverSocket).close
 //@     requires false [C07.srv.forcing.poll.cycles.never.closes]
+
+// C06 / C14: every packet of a received batch is looked at by the session itself - a CLOSE or a PONG (PING on the
+// client) is acted upon wherever it stands in a polling payload, not only when it arrives alone.
+//@ func (*serverSocket).onPacket
+//@   opt safety off
+//@   requires s != nil
+//@   ghost told int = 0
+//@   ghost handled int = 0
+//@   callsite (*serverSocket).getCallbacks skip
+//@   callsite OnPacket skip
+//@     update told = told + 1
+//@   callsite (*serverSocket).handlePacket skip
+//@     requires recv == s && arg0 == packets[rangeindex] [C06.eio.srv.batch.each.packet.handled.in.turn]
+//@     update handled = handled + 1
+//@   loop 0 invariant handled == rangeindex + 1 && rangelen == len(packets)
+//@   ensures handled == len(packets) && told == 1 [C06.eio.srv.batch.every.packet.handled]
+//@ func (*clientSocket).onPacket
+//@   opt safety off
+//@   requires s != nil
+//@   ghost told int = 0
+//@   ghost handled int = 0
+//@   callsite OnPacket skip
+//@     update told = told + 1
+//@   callsite (*clientSocket).handlePacket skip
+//@     requires recv == s && arg0 == packets[rangeindex] [C06.eio.cli.batch.each.packet.handled.in.turn]
+//@     update handled = handled + 1
+//@   loop 0 invariant handled == rangeindex + 1 && rangelen == len(packets)
+//@   ensures handled == len(packets) && told == 1 [C06.eio.cli.batch.every.packet.handled]
